@@ -157,6 +157,15 @@ Fixpoint exp_typed (t : gty) (k : bytes) (v : val) {struct t} : option (list cal
   | _, _ => None
   end.
 
+(* Dict: an object holding, in order, what each given field adds *)
+Definition exp_dict (k : bytes) (v : val) : option (list call) :=
+  match v with
+  | VSlice _ l =>
+      option_map (fun cs => [(($"object"), k, VCalls (norm_calls cs))])
+        (oconcat (fun x => match field_of_val x with Some f => addto T (S (val_depth v)) f | None => None end) l)
+  | _ => None
+  end.
+
 Definition expected (stack : bytes) (nm : name) (t : gty) (k : bytes) (v : val) : option (list call) :=
   let i := intent nm in
   if bytes_eqb i ($"binary") then match v with VBytes _ _ => Some [(($"binary"), k, v)] | _ => None end
@@ -176,14 +185,7 @@ Definition expected (stack : bytes) (nm : name) (t : gty) (k : bytes) (v : val) 
   else if bytes_eqb i ($"namespace") then Some [(($"namespace"), k, VNil)]
   else if bytes_eqb i ($"stack") then Some [(($"string"), k, VStr stack)]
   else if bytes_eqb i ($"nil") then Some [(($"reflect"), k, VNil)]
-  else if bytes_eqb i ($"dict") then
-    (* an object holding, in order, what each given field adds *)
-    match v with
-    | VSlice _ l =>
-        option_map (fun cs => [(($"object"), k, VCalls (norm_calls cs))])
-          (oconcat (fun x => match field_of_val x with Some f => addto T (S (val_depth v)) f | None => None end) l)
-    | _ => None
-    end
+  else if bytes_eqb i ($"dict") then exp_dict k v
   else exp_typed t k v.
 
 (* zap.Any: the typed constructor of the dynamic type; otherwise the marshaler interfaces, then
